@@ -55,8 +55,10 @@ def _tasks(n):
                 chm_u == T.tr_choices(sim_j.t),                               # the branch whose choices are visible
                 E.eq(E.method(tr, "get_args"), args))
             E.prove(f"C13.Switch.simulate.in_range.behaves_as_branch[{j}of{n}]", E.Implies(z3.And(inr, idx.t == j), body))
+            # (C23: the index carries a symbolic concreteness tag - the clamped behaviour is proved for Python-int indices (an eager
+            # call) and for traced ones (the same call under jit) alike)
             E.prove(f"C13.Switch.simulate.out_of_range.clamped[{j}of{n}]", E.Implies(z3.And(z3.Not(inr), clamp == j), body),
-                    also=["C01"])
+                    also=["C01", "C23"])
         E.prove(f"C01.Switch.simulate.in_range.wf[n{n}]", E.Implies(inr, wf(E, sw, tr)))
         E.prove(f"C01.Switch.simulate.out_of_range.wf[n{n}]", E.Implies(z3.Not(inr), wf(E, sw, tr)))
         E.refutable(f"switch.simulate.n{n}", E.eq(E.method(tr, "get_score"), SReal(T.tr_score(T.sim(gs[0].t, k.t, bargs[0].t)))))
